@@ -647,10 +647,6 @@ impl Inc {
                 .unwrap_or(-1)
         };
         let mut my_next = height("me", &obs) + 1;
-        let mut fed: BTreeMap<&'static str, i64> = BTreeMap::new();
-        for r in ["r1", "r2"] {
-            fed.insert(r, height(r, &obs) + 1);
-        }
         let mut received: Vec<Value> = Vec::new();
         for _ in 0..n {
             match rng.below(10) {
@@ -662,20 +658,24 @@ impl Inc {
                         self.tx.publish(msg).await
                     };
                     match r {
-                        Ok(_) => emit(json!({"p": "pub", "seq": my_next})),
-                        Err(e) => return Err(format!("publish: {e}")),
+                        Ok(_) => {
+                            emit(json!({"p": "pub", "seq": my_next}));
+                            my_next += 1;
+                        }
+                        // A publish may fail (e.g. SQLITE_BUSY_SNAPSHOT "database is locked" when
+                        // log_prune's DELETE, which runs outside the store's transaction permit,
+                        // commits between the forge's read and write): nothing was published.
+                        Err(e) => emit(json!({"p": "pub_err", "error": e.to_string()})),
                     }
-                    my_next += 1;
                 }
                 4..=5 => {
                     let r = if rng.chance(1, 2) { "r1" } else { "r2" };
-                    let next = fed[r];
+                    // never leave a gap: an operation that failed processing is fed again
+                    let stored_next = height(r, &self.observe().await?) + 1;
+                    let next = stored_next;
                     let seq = if next > 0 && rng.chance(1, 4) { rng.below(next as u64) as i64 } else { next };
                     if self.remote_op(r, seq).is_some() {
                         self.feed_remote(r, seq).await?;
-                        if seq == next {
-                            fed.insert(r, next + 1);
-                        }
                         emit(json!({"p": "fed", "a": r, "seq": seq}));
                     }
                 }
